@@ -158,6 +158,13 @@ class Evaluator(PE):
                     pass
             if obj is builtins.isinstance and isinstance(args[0], (Tmpl,)) :
                 return [(Const(_raw(args[1]) is str if isinstance(args[1], Py) else False), p)]
+            if obj is builtins.isinstance and len(args) == 2 and isinstance(args[0], (Dct, Lst, Tup)):
+                # a container built by the analysed code (or by a scenario) has exactly its literal class
+                lit = {"dict": dict, "set": set}.get(getattr(args[0], "kind", ""), list if isinstance(args[0], Lst) else tuple)
+                if isinstance(args[1], Py) and isinstance(args[1].obj, type):
+                    return [(Const(issubclass(lit, args[1].obj)), p)]
+                if isinstance(args[1], (ClsRef, Sym)):
+                    return [(Const(False), p)]  # an in-repo / opaque class is never the class of a literal container
             return [(self.opaque_call(name, args, kwargs, e), p)]
         if obj is builtins.len and args:
             a = args[0]
